@@ -113,6 +113,9 @@ class SubPackets(collections_abc.MutableMapping, Field):
         # the hashed area exactly as it was received, for as long as no hashed subpacket is added:
         # a signature must be verified over the octets that were signed, not over a re-encoding of them
         self._hashed_raw = None
+        # likewise the unhashed area: re-encoding it can change its size (non-minimal length encodings, transcoded
+        # text) and the result must still be the packet that was received
+        self._unhashed_raw = None
 
     def __bytearray__(self):
         _bytes = bytearray()
@@ -131,6 +134,9 @@ class SubPackets(collections_abc.MutableMapping, Field):
         return _bytes
 
     def __unhashbytearray__(self):
+        if self._unhashed_raw is not None:
+            return bytearray(self._unhashed_raw)
+
         _bytes = bytearray()
         _bytes += self.int_to_bytes(sum(len(sp) for sp in self._unhashed_sp.values()), 2)
         for uhsp in self._unhashed_sp.values():
@@ -161,6 +167,9 @@ class SubPackets(collections_abc.MutableMapping, Field):
             d, key = self._hashed_sp, key[2:]
             self._hashed_raw = None
 
+        else:
+            self._unhashed_raw = None
+
         while (key, i) in d:
             i += 1
 
@@ -188,6 +197,7 @@ class SubPackets(collections_abc.MutableMapping, Field):
         sp._hashed_sp = self._hashed_sp.copy()
         sp._unhashed_sp = self._unhashed_sp.copy()
         sp._hashed_raw = copy.copy(self._hashed_raw)
+        sp._unhashed_raw = copy.copy(self._unhashed_raw)
 
         return sp
 
@@ -231,9 +241,13 @@ class SubPackets(collections_abc.MutableMapping, Field):
         del packet[:2]
 
         plen = len(packet)
+        unhashed_raw = bytearray(self.int_to_bytes(uhl, 2)) + packet[:uhl]
         while plen - len(packet) < uhl:
             sp = SignatureSP(packet)
             self[sp.__class__.__name__] = sp
+
+        if plen - len(packet) == uhl:
+            self._unhashed_raw = unhashed_raw
 
 
 class UserAttributeSubPackets(SubPackets):
